@@ -148,6 +148,16 @@ pub enum UEnumD {
     Data(FlatVec<u8, u16>),
 }
 
+/// an unrelated multi-segment attribute on a variant BEFORE the `#[default]` one: the default lookup must not mistake it
+#[flat(sized = false, default = true)]
+pub enum UEnumAttr {
+    #[rustfmt::skip]
+    Ping,
+    #[default]
+    Idle,
+    Data(FlatVec<u8, u16>),
+}
+
 /// a NON-portable generic wrapper and a `portable = true` definition that embeds it: `Packet<T>` must not be `Portable`
 /// for any `T` (its field type `Native<T>` is not), although every generic parameter is
 #[flat]
